@@ -417,7 +417,7 @@ func execServer(desc string) string {
 	stepsS, _ := hx.KV(desc, "steps")
 
 	std := pki.Std()
-	var keyOps int64
+	var keyOps, cbCalls, cbBefore int64 // cbBefore: application callbacks seen before the accepted hello
 	cfg := &dtlcp.Config{
 		Certificates: []dtlcp.Certificate{
 			{Certificate: [][]byte{std.SrvSig.DER}, PrivateKey: countingKey{std.SrvSig.Key, &keyOps}},
@@ -425,6 +425,10 @@ func execServer(desc string) string {
 		},
 		Time:                     pki.NowFn,
 		CookieSecret:             cfgSecret,
+		GetConfigForClient: func(*dtlcp.ClientHelloInfo) (*dtlcp.Config, error) {
+			atomic.AddInt64(&cbCalls, 1)
+			return nil, nil
+		},
 		InitialRetransmitTimeout: time.Hour,
 		MaxRetransmitTimeout:     time.Hour,
 	}
@@ -482,6 +486,7 @@ func execServer(desc string) string {
 				sizes = append(sizes, len(d))
 			}
 			outs = append(outs, fmt.Sprintf("%d/%s/%s/%d/0/%d", len(sizes), joinInts(types), joinInts(sizes), alerts, atomic.LoadInt64(&keyOps)))
+			cbBefore = atomic.LoadInt64(&cbCalls)
 			continue
 		}
 		if len(p) != 5 && len(p) != 6 {
@@ -594,6 +599,9 @@ func execServer(desc string) string {
 			}
 		}
 		k := atomic.LoadInt64(&keyOps)
+		if !accepted {
+			cbBefore = atomic.LoadInt64(&cbCalls)
+		}
 		if accepted {
 			outs = append(outs, "acc")
 			flight = fmt.Sprintf("%s/%d", joinInts(types), k)
@@ -601,7 +609,7 @@ func execServer(desc string) string {
 			outs = append(outs, fmt.Sprintf("%d/%s/%s/%d/%d/%d", len(sizes), joinInts(types), joinInts(sizes), alerts, req, k))
 		}
 	}
-	return fmt.Sprintf("steps=%s flight=%s", strings.Join(outs, ","), flight)
+	return fmt.Sprintf("steps=%s flight=%s cb=%d", strings.Join(outs, ","), flight, cbBefore)
 }
 
 // ---------------------------------------------------------------------------- dispatch
